@@ -736,6 +736,12 @@ m(k,v) <-- m(j,v), link(j,k);
 hot(k) <-- m(k,v), if v >= 6;
 """, "stress par", bound=2, dom=2)
 
+prog("stress_set", """
+rel src(int,int) input; lat s(int,set_i32); rel both(int);
+s(k, set1(v)) <-- src(k,v);
+both(k) <-- s(k,x), if sethas(x,0), if sethas(x,1);
+""", "stress par", bound=2, dom=2)
+
 prog("stress_rel", """
 rel edge(int,int) input; rel via(int,int) input; rel tgt(int); rel sw(int,int); rel low(int,int); rel two(int,int);
 two(x,z) <-- edge(x,y), via(y,z);
